@@ -712,7 +712,9 @@ class MemorizedFunc(Logger):
             old_func_code, old_first_line = extract_first_line(
                 self.store_backend.get_cached_func_code([self.func_id])
             )
-        except (IOError, OSError):  # some backend can also raise OSError
+        except (IOError, OSError, ValueError):
+            # some backend can also raise OSError; ValueError: the stored
+            # source is unreadable, e.g. truncated by an interrupted write.
             self._write_func_code(func_code, first_line)
             return False
         if old_func_code == func_code:
